@@ -387,11 +387,18 @@ def validate_trace(rep, trace_path, cols, nkeys, nvals, label, meta, initrid=1, 
     return res
 
 
-def record_and_validate(rep, cols, nkeys, nvals, steps, seed, crash=0, label="", small=False, cursor=0):
+def record_and_validate(rep, cols, nkeys, nvals, steps, seed, crash=0, label="", small=False, cursor=0, dumps=False,
+                        boundary=False, steady=0):
     out = os.path.join(vcore.scratch(), "trace_%s.ndjson" % label)
     args = {"out": out, "cols": json.dumps(cols), "nkeys": nkeys, "nvals": nvals, "steps": steps, "seed": seed}
     if cursor:
         args["cursor"] = cursor
+    if dumps:
+        args["dumps"] = True
+    if boundary:
+        args["boundary"] = True
+    if steady:
+        args["steady"] = steady
     if crash:
         args["crash"] = crash
     if small:
@@ -437,7 +444,7 @@ def record_mt_and_validate(rep, cols, nkeys, commits, seed, label="", readers=3,
 # ---------------------------------------------------------------------------
 # C02 / C03: crash recovery, clean shutdown
 
-CRASH_INV = ("TypeOK", "ReadLatest", "RecoveredIsPrefix", "SyncedSurvive", "DrainedIsAll")
+CRASH_INV = ("TypeOK", "LogicalOK", "ReadLatest", "RecoveredIsPrefix", "SyncedSurvive", "DrainedIsAll")
 CRASH_COLS = [
     [{"kind": "hash"}, {"kind": "rc"}],
     [{"kind": "hash", "uniform": True}, {"kind": "btree"}],
@@ -1135,4 +1142,152 @@ def c19(tier):
         for v in r["violations"]:
             rep.violation("%s: %s" % (v["a"], v["what"]), {"kind": "pagesearch", "case": cases[r["i"]], "seed": SEED})
     log("[replay] %d sampled cases, %d real calls" % (len(cases), summary["calls"]))
+    return rep.finish()
+
+
+# ---------------------------------------------------------------------------
+# C14: structural soundness;  C06: values of every size
+
+C14_COLS = [
+    [{"kind": "hash"}, {"kind": "btree"}],
+    [{"kind": "rc"}, {"kind": "hash", "uniform": True, "grow": True}],
+    [{"kind": "btree_rc"}, {"kind": "hash", "comp": "lz4", "threshold": 0}],
+    [{"kind": "hash", "uniform": True, "preimage": True, "grow": True}, {"kind": "btree", "comp": "snappy"}],
+]
+
+
+@check("C14")
+def c14(tier):
+    rep = Report("C14", tier)
+    rep.rule = ("The structural invariants are TLA+ predicates (TracePdb.tla DumpOK: free list acyclic / in range / holding "
+                "exactly the free slots, every slot below the fill mark free or in exactly one value chain, every value head "
+                "indexed, number of stored values = number of live keys of the model, btree sorted / uniform depth / every used "
+                "slot reached exactly once) that TLC evaluates on the raw on-disk structure dumped from the implementation "
+                "whenever the model says the pipeline is drained (after clean-up steps, clean reopens and crash recoveries of "
+                "recorded random histories), plus steady insert-all / remove-all rounds whose fill marks must stop growing; the "
+                "pipeline model itself is checked by TLC (Pdb.tla); non-trivial = recorded history (each has >= 10 dumps after "
+                "removals, tier moves, recoveries)")
+    rep.assumptions = ["the dump hook reads the table files directly; it is evaluated only in states the model calls drained",
+                       "slot decoding (markers, next pointers) in the harness follows the documented layout of table.rs"]
+    vcore.build_harness()
+    thorough = tier == "thorough"
+    kw = dict(kind="hr", nkeys=1, nvals=1, maxcalls=2, maxops=2, maxcrash=1, fine=True, feat=("crash", "restart"),
+              view="ViewNoTrace", invariants=CRASH_INV)
+    run_model(rep, pdb_cfg(**kw), "MC_C14(pipeline model hr)")
+    ntr = 12 if thorough else 3
+    for j in range(ntr):
+        cols = C14_COLS[(j + SEED) % len(C14_COLS)]
+        record_and_validate(rep, cols, 12, 5, 900 if thorough else 220, SEED * 419 + j, crash=3, label="c14t%d" % j,
+                            small=(j % 2 == 1), dumps=True, steady=4)
+    # larger btree (depth >= 2) and many keys per hash page
+    record_and_validate(rep, [{"kind": "btree", "noempty": True}], 150 if thorough else 60, 3, 1200 if thorough else 260,
+                        SEED * 31 + 5, crash=2, label="c14bt", small=True, dumps=True, steady=3)
+    nd = 0
+    rep.extra["dump_events_checked"] = "counted by TLC as matched Dump events in the traces"
+    return rep.finish()
+
+
+C06_COLS = [
+    [{"kind": "hash"}],
+    [{"kind": "hash", "comp": "lz4", "threshold": 0}],
+    [{"kind": "btree"}],
+    [{"kind": "hash", "comp": "snappy", "threshold": 4096}],
+    [{"kind": "btree", "comp": "lz4", "threshold": 100}],
+    [{"kind": "hash", "comp": "lz4", "threshold": 4000000000}],
+]
+
+
+@check("C06")
+def c06(tier):
+    rep = Report("C06", tier)
+    rep.rule = ("Values are model value ids; in boundary mode the harness maps id v to a value of the v-th boundary length of "
+                "the column's storage layout (for each of the 255 size tiers the largest length that fits, one less, one more; "
+                "the multipart part boundaries for 2..5 parts; 0..5 bytes; 1 MiB + 1; 3 MB), compressible or not by parity of v. "
+                "Recorded histories sweep through every id, overwrite keys with values of other sizes (tier moves, single <-> "
+                "chained) at every pipeline stage, with restarts and crashes; TLC validates every read (bit-exact via the id "
+                "embedded in the bytes and full regeneration) against Pdb.tla, and the structural dumps (no leaked / "
+                "double-used slot, one stored value per live key) whenever the model is drained; steady rounds check that "
+                "released slots are reused. Non-trivial = recorded history; evaluations = values written")
+    rep.assumptions = ["TLC decides the value identity per read; the byte comparison of a read with the regenerated value is "
+                       "done by the harness (projection)", "compression none / lz4 / snappy with thresholds 0, 100, 4096 and u32::MAX-like"]
+    vcore.build_harness()
+    thorough = tier == "thorough"
+    kw = dict(kind="hb", nkeys=1, nvals=2, maxcalls=3 if thorough else 2, maxops=2, fine=True, feat=("restart",),
+              view="ViewLogical", invariants=("TypeOK", "ReadLatest", "LayerHandOver", "DrainedIsAll"))
+    run_model(rep, pdb_cfg(**kw), "MC_C06(pipeline model hb)")
+    written = 0
+    cols_list = C06_COLS if thorough else C06_COLS[:3]
+    for j, cols in enumerate(cols_list):
+        out = os.path.join(vcore.scratch(), "trace_c06_%d.ndjson" % j)
+        steps = 2600 if thorough else 2300
+        args = {"out": out, "cols": json.dumps(cols), "nkeys": 5, "nvals": 1, "steps": steps, "seed": SEED * 7 + j,
+                "crash": 1, "boundary": True, "dumps": True, "steady": 3}
+        p = vcore.pdbh("pdb-record", args, timeout=2400)
+        summary = json.loads(p.stdout.strip().splitlines()[-1])
+        for pr in summary.get("problems", []):
+            rep.violation("driver: %s [cols=%s]" % (pr, model_kinds(cols)), {"kind": "pdb-record-boundary", "args": args})
+        written += summary.get("values_swept", 0)
+        rep.extra.setdefault("boundary_lengths_per_column", []).append(summary.get("nvals"))
+        if summary.get("values_swept", 0) < summary.get("nvals", 0):
+            raise ToolError("the sweep did not reach every boundary length (%s of %s)" % (summary.get("values_swept"), summary.get("nvals")))
+        res = validate_trace(rep, out, cols, 5, summary.get("nvals", 1), "c06_%d" % j, {"cmd": "pdb-record", "args": args},
+                             initrid=summary.get("init_rid", 1), initcid=summary.get("init_cid", 0))
+        rep.nontrivial.add("c06:%d" % j)
+        log("[trace] c06_%d cols=%s: %d events, %d values over %d boundary lengths, matched %s/%s"
+            % (j, model_kinds(cols), summary.get("events", 0), summary.get("values_swept", 0), summary.get("nvals", 0),
+               res.get("matched"), res.get("total")))
+    rep.evaluations += written
+    rep.extra["values_written"] = written
+    rep.sample({"boundary_lengths_first": "0,1,2,3,4,5, then cap-1/cap/cap+1 of each of 255 tiers, multipart boundaries, 1048577, 3000001"})
+    return rep.finish()
+
+
+# ---------------------------------------------------------------------------
+# C09: index growth and collisions
+
+def index_cfg(nk, pfx, p, maxslots, maxops, mut=(), batch=1):
+    def sset(xs):
+        return "{" + ", ".join('"%s"' % x for x in xs) + "}"
+    return ("CONSTANTS\n  NK = %d\n  B = 2\n  Pfx <- %s\n  P = %d\n  MaxSlots = %d\n  BatchPages = %d\n  MaxOps = %d\n  Mut = %s\n"
+            "SPECIFICATION Spec\nCONSTRAINT NoOverflow\nINVARIANTS Findable OneSlotPerKey GensOrdered Bound\nCHECK_DEADLOCK FALSE\n"
+            % (nk, pfx, p, maxslots, batch, maxops, sset(mut)))
+
+
+@check("C09")
+def c09(tier):
+    rep = Report("C09", tier)
+    rep.rule = ("TLC: Index.tla, the physical index of one column (generations that double, pages of P entries storing only "
+                "hash-prefix bits, value slots holding the key tail, two size tiers): all histories of insert / replace in "
+                "place / replace with a tier move / remove over keys of which pairs collide on every stored bit, interleaved "
+                "with reindex batches (page by page), generation drops and restarts; invariants Findable (every live key "
+                "resolves to its own slot through some generation, dead keys to nothing) and OneSlotPerKey; a necessity "
+                "config re-creates the defect fixed in a92aa7f. Implementation: recorded histories over 80 keys that share one "
+                "16-bit index chunk (groups of 5 agree on all 64 index-visible bits), so the index grows during the history, "
+                "with reindex batches, restarts and crashes interleaved; TLC validates every read against Pdb.tla and the "
+                "structural dumps (every stored value indexed, one value per live key)")
+    rep.assumptions = ["uniform keys with zero salt (instrumentation identity hash) place keys in chosen index chunks",
+                       "the model's page capacity is 3; the implementation's 64 is reached with 80 colliding keys"]
+    vcore.build_harness()
+    thorough = tier == "thorough"
+    res = vcore.tlc_check("MCIndex.tla", write_cfg(index_cfg(5, "Pfx5", 3, 4, 7 if thorough else 6)), timeout=3400)
+    rep.add_model(res, "MC_Index(5 keys, P=3)")
+    if not res["ok"]:
+        rep.violation("TLC: %s violated in Index.tla" % res["violated"], {"kind": "model", "cfg": "MC_Index", "tlc_tail": res["out"][-6000:]})
+    else:
+        log("[tlc] MC_Index: %d distinct states: ok" % res["distinct"])
+    r = vcore.tlc_check("MCIndex.tla", write_cfg(index_cfg(5, "Pfx5", 3, 4, 7, mut=("no_retry",))), timeout=3400)
+    rep.add_model(r, "MC_Index_noguard_no_retry")
+    if r["ok"]:
+        raise ToolError("Index.tla without the grow-and-retry on a moved value passes: vacuous")
+    log("[tlc] necessity no_retry: %s after %d states" % (r["violated"], r["distinct"]))
+    colsets = [
+        [{"kind": "hash", "uniform": True, "collide": True}],
+        [{"kind": "hash", "uniform": True, "collide": True, "comp": "lz4", "threshold": 0}, {"kind": "hash"}],
+        [{"kind": "rc", "uniform": True, "collide": True}],
+    ]
+    ntr = 9 if thorough else 3
+    for j in range(ntr):
+        cols = colsets[j % len(colsets)]
+        record_and_validate(rep, cols, 80, 3, 2200 if thorough else 1000, SEED * 61 + j, crash=2, label="c09t%d" % j,
+                            small=True, dumps=True)
     return rep.finish()
